@@ -422,6 +422,7 @@ def O7(b):
         ({S('things')}, {S('pods.metrics.k8s.io')}, E, {S('example.com', 'readonlies')}, E),
         (E, E, {S(references.EVERYTHING)}, E, E),
         ({S('nonexistent')}, E, {S('nonexistent'), S('po')}, E, {S('third.io', 'items')}),
+        (E, {S('third.io', 'items'), S(category='mycat')}, E, E, E),
     ]
 
     class Section:
@@ -513,7 +514,8 @@ def O7(b):
                 warned = [r for r in cap.records if r.levelno >= logging.WARNING]
                 if crashed is None:
                     ambiguous, nonwatchable = check_state(insights, set(source), 'full scan')
-                b.check('warnings_not_crashes', crashed is None and (bool(warned) or not (ambiguous or nonwatchable)),
+                unresolved = [s for s in watching if not _ref_select(s, source)]
+                b.check('warnings_not_crashes', crashed is None and (bool(warned) or not (ambiguous or nonwatchable or unresolved)),
                         lambda: dict(config=ci, source=_ids(source), crashed=repr(crashed)))
                 if crashed is not None:
                     continue
@@ -566,3 +568,846 @@ def O7(b):
     finally:
         observation.logger.removeHandler(cap)
         observation.logger.setLevel(old_level)
+
+
+# ================================================================================================ O8 / O9
+class _Idle(BaseException):
+    """stands for `await asyncio.Event().wait()` on a fresh event: the coroutine sleeps forever (until cancelled)"""
+
+
+class _AsyncioStub:
+    """the two asyncio names the observers use: Event() (a FRESH event nobody sets: wait() never returns) """
+    def __init__(self, vc):
+        self.vc = vc
+
+    def Event(self):
+        vc = self.vc
+
+        class Ev:
+            async def wait(self):
+                vc.emit('idle-forever')
+                await suspend('asyncio.Event().wait()')
+                raise _Idle()
+        return Ev()
+
+
+class _ReadyFlag:
+    def __init__(self, vc, name):
+        self.vc, self.name = vc, name
+
+    def set(self):
+        self.vc.emit('ready.set', self.name)
+
+
+def _observer_env(vc, kind):
+    """what both observers share: insights with the Condition, the ready flags, backbone.wait_for, the watcher."""
+    revised = _Revised(vc)
+    st = dict(resource=None, thrown=None, watcher_kw=None)
+    other = exception_reps([errors.APIForbiddenError, errors.APIError], with_base=False)
+
+    def mk(cls):
+        return cls(None, status=403, headers={}) if issubclass(cls, errors.APIError) else cls('x')
+
+    class Backbone:
+        selectors = [Opaque('sel:namespaces', group=''), Opaque('sel:crds', group='apiextensions.k8s.io')]
+
+        async def wait_for(self, selector):
+            vc.emit('backbone.wait_for', selector)
+            await suspend('backbone.wait_for')
+            st['resource'] = Opaque(f'resource-for:{selector!r}', selector=selector)
+            return st['resource']
+
+        async def fill(self, *, resources):
+            vc.emit('backbone.fill', resources, revised.held)
+            await suspend('backbone.fill')
+
+    async def watcher(**kw):
+        vc.emit('watcher', kw)
+        st['watcher_kw'] = kw
+        await suspend('queueing.watcher')
+        k = vc.nondet(len(other), 'watcher: raises (it never returns by itself)')
+        st['thrown'] = mk(other[k])
+        raise st['thrown']
+    insights = Opaque('insights', revised=revised, backbone=Backbone(), namespaces=set(),
+                      ready_namespaces=_ReadyFlag(vc, 'namespaces'), ready_resources=_ReadyFlag(vc, 'resources'))
+    return revised, st, other, mk, insights, watcher
+
+
+def _order_ok(names, *seq):
+    """the events named in seq occur, each exactly once, in this order"""
+    try:
+        idx = [names.index(x) for x in seq]
+    except ValueError:
+        return False
+    return all(names.count(x) == 1 for x in seq) and idx == sorted(idx)
+
+
+@harness('O8', targets='kopf._core.reactor.observation.namespace_observer', props=['C19'],
+         clauses=['uses_the_backbone_resource', 'population.listing', 'population.fallback_403', 'population.configured',
+                  'population.committed_under_lock_then_notified', 'ready_after_population', 'watches_when_permitted',
+                  'no_observation_when_configured', 'watch_403_idles', 'other_failures_propagate', 'never_returns'],
+         canaries=['canary.always_lists', 'canary.never_idles', 'canary.never_fails'],
+         trusted=['Backbone.wait_for by contract O11', 'fetching.list_objs: (objects, version) or raises',
+                  'queueing.watcher (Q5): runs until it fails', 'select_specific_namespaces by contract O10',
+                  'asyncio.Condition; asyncio.Event().wait() on a fresh event never returns', 'revise_namespaces by contract O5'])
+def O8(vc):
+    """
+    observation.namespace_observer (docs/scopes.rst + the module docstring): the resource used for listing/watching
+    is the one the backbone reports for NAMESPACES.  Initial population, committed under insights.revised and followed
+    by notify_all(): when observation is enabled and the operator is not cluster-wide, the namespaces are LISTED and
+    revised by the patterns (O5); if listing is forbidden (403) the specific configured names are served as they are
+    ("falls back to the list of provided namespaces as-is"), the observer does not die; when cluster-wide, exactly {None}
+    is served and the namespaces are neither listed nor watched; when scanning is disabled, the specific names.
+    ready_namespaces is set after the population and before watching.  Then the namespaces are watched (namespace=None,
+    processor = process_discovered_namespace_event bound to the same patterns/insights); a 403 of the watch leaves the
+    observer idle (not dead); every other failure (of list or watch) propagates; it never returns by itself.
+    """
+    revised, st, other, mk, insights, watcher = _observer_env(vc, 'namespaces')
+    clusterwide = [False, True][vc.nondet(2, 'clusterwide')]
+    disabled = vc.bool('settings.scanning.disabled')
+    settings = Opaque('settings', scanning=Opaque('scanning', disabled=disabled))
+    patterns = ['ns-exact', 'ns-*']
+    exact = {'ns-exact'}
+    pre = set() if vc.nondet(2, 'namespaces served before: none / some') == 0 else {'ns-old'}
+    insights.namespaces.update(pre)
+    objs = Opaque('listed-namespaces')
+    lst = dict(thrown=None, kw=None)
+
+    async def list_objs(**kw):
+        vc.emit('list', kw)
+        lst['kw'] = kw
+        await suspend('list_objs')
+        k = vc.nondet(1 + len(other), 'list_objs: ok / raises')
+        if k > 0:
+            lst['thrown'] = mk(other[k - 1])
+            raise lst['thrown']
+        return objs, 'rv1'
+
+    def revise_namespaces(**kw):
+        vc.emit('revise', kw, revised.held)
+
+    def select_specific(pats):
+        vc.emit('select_specific', pats)
+        return set(exact)
+    snap = {}
+
+    class NsSet(set):
+        def update(self, *a):
+            vc.emit('namespaces.update', revised.held)
+            return super().update(*a)
+    insights.namespaces = NsSet(insights.namespaces)
+    vc.used('references.select_specific_namespaces', 'O10'); vc.used('observation.revise_namespaces', 'O5')
+    vc.used('fetching.list_objs', 'trusted'); vc.used('queueing.watcher', 'Q5'); vc.used('Backbone.wait_for', 'O11')
+    ld = vc.load('kopf._core.reactor.observation', 'namespace_observer', stubs={
+        'references.select_specific_namespaces': select_specific, 'fetching.list_objs': list_objs,
+        'revise_namespaces': revise_namespaces, 'queueing.watcher': watcher, 'asyncio': _AsyncioStub(vc),
+        'logger': NullLogger()})
+    outcome, raised = 'returned', None
+    try:
+        vc.drive(ld.fn(clusterwide=clusterwide, namespaces=patterns, insights=insights, settings=settings))
+    except _Idle:
+        outcome = 'idle'
+    except BaseException as e:
+        if _ours(e):
+            raise
+        outcome, raised = 'raised', e
+    tr, names = vc.trace, _names(vc)
+    observing = And(Not(disabled), not clusterwide)
+    lists = [ev for ev in tr if ev[0] == 'list']
+    revs = [ev for ev in tr if ev[0] == 'revise']
+    watches = [ev for ev in tr if ev[0] == 'watcher']
+    vc.canary('canary.always_lists', len(lists) == 1)
+    vc.canary('canary.never_idles', outcome != 'idle')
+    vc.canary('canary.never_fails', outcome != 'raised')
+    vc.ensure('never_returns', outcome != 'returned')
+    wf = [ev for ev in tr if ev[0] == 'backbone.wait_for']
+    vc.ensure('uses_the_backbone_resource', len(wf) == 1 and wf[0][1] is references.NAMESPACES)
+    vc.ensure('no_observation_when_configured', Implies(Not(observing), not lists and not watches and not revs))
+    vc.ensure('population.listing', Implies(observing, len(lists) == 1))
+    for ev in lists:
+        kw = ev[1]
+        vc.ensure('uses_the_backbone_resource', kw.get('resource') is st['resource'] and kw.get('namespace') is None
+                  and kw.get('settings') is settings)
+    list_failed = lst['thrown']
+    if list_failed is not None and not isinstance(list_failed, errors.APIForbiddenError):
+        vc.ensure('other_failures_propagate', raised is list_failed and 'ready.set' not in names and not watches
+                  and insights.namespaces == pre)
+        return ('list-failed', type(list_failed).__name__)
+    # -- the population happened: which namespaces, and how it was committed
+    if lists and list_failed is None:
+        vc.ensure('population.listing', len(revs) == 1 and revs[0][1].get('raw_bodies') is objs and not revs[0][1].get('raw_events')
+                  and revs[0][1].get('namespaces') is patterns and revs[0][1].get('insights') is insights
+                  and insights.namespaces == pre)
+        vc.ensure('population.committed_under_lock_then_notified', committed_under_lock(vc, ('revise',)))
+    else:
+        want = pre | ({None} if clusterwide else exact)
+        clause = 'population.fallback_403' if lists else 'population.configured'
+        vc.ensure(clause, set(insights.namespaces) == want and not revs)
+        vc.ensure('population.committed_under_lock_then_notified', committed_under_lock(vc, ('namespaces.update',)))
+    vc.ensure('ready_after_population', _order_ok(names, 'revised.release', 'ready.set')
+              and [ev[1] for ev in tr if ev[0] == 'ready.set'] == ['namespaces']
+              and all(names.index('ready.set') < i for i, n in enumerate(names) if n in ('watcher', 'idle-forever')))
+    vc.ensure('watches_when_permitted', Implies(observing, len(watches) == 1))
+    for ev in watches:
+        kw = ev[1]
+        p = kw.get('processor')
+        vc.ensure('watches_when_permitted', kw.get('resource') is st['resource'] and kw.get('namespace') is None
+                  and kw.get('settings') is settings and kw.get('operator_paused') is None
+                  and getattr(p, 'func', None) is ld.ns['process_discovered_namespace_event']
+                  and getattr(p, 'keywords', None) == dict(namespaces=patterns, insights=insights)
+                  and p.keywords['namespaces'] is patterns and p.keywords['insights'] is insights)
+    thrown = st['thrown']
+    if thrown is None:
+        vc.ensure('no_observation_when_configured', Implies(Not(observing), outcome == 'idle'))
+        return ('configured', outcome)
+    if isinstance(thrown, errors.APIForbiddenError):
+        vc.ensure('watch_403_idles', outcome == 'idle')
+    else:
+        vc.ensure('other_failures_propagate', raised is thrown)
+    return ('watched', type(thrown).__name__, outcome)
+
+
+@harness('O9', targets='kopf._core.reactor.observation.resource_observer', props=['C19'],
+         clauses=['scans_the_groups_of_all_selectors', 'population.revised_with_the_scan', 'population.backbone_filled',
+                  'population.committed_under_lock_then_notified', 'ready_after_population', 'uses_the_backbone_resource',
+                  'watches_when_enabled', 'disabled_idles', 'watch_403_idles', 'other_failures_propagate', 'never_returns'],
+         canaries=['canary.always_full_scan', 'canary.never_idles', 'canary.never_fails'],
+         trusted=['scanning.scan_resources: the resources of the requested groups (None = all) or raises',
+                  'registry sections: get_all_handlers() lists the handlers; handler.selector is None or has a group',
+                  'Backbone.fill / wait_for by contract O11', 'queueing.watcher (Q5): runs until it fails',
+                  'revise_resources by contract O7', 'asyncio.Condition; asyncio.Event().wait() on a fresh event never returns'])
+def O9(vc):
+    """
+    observation.resource_observer: the initial scan covers the API groups of EVERY resource-related handler's selector
+    (webhooks, indexing, watching, spawning, changing) and of the framework's own backbone selectors; one selector
+    without a group makes it a scan of all groups (groups=None); handlers without a selector are skipped.  The scan
+    result is revised into the insights (group=None: everything is replaced, contract O7) and fills the backbone, under
+    insights.revised, followed by notify_all(); then ready_resources is set; then -- unless scanning is disabled --
+    the CRDs (the backbone's resource for CRDS) are watched cluster-wide with process_discovered_resource_event bound
+    to the same settings/registry/insights.  A 403 of that watch leaves the observer idle ("only the initial scan is
+    done"), disabled scanning too; every other failure (scan, watch) propagates; it never returns by itself.
+    """
+    revised, st, other, mk, insights, watcher = _observer_env(vc, 'resources')
+    disabled = vc.bool('settings.scanning.disabled')
+    settings = Opaque('settings', scanning=Opaque('scanning', disabled=disabled))
+    GROUPS = [None, 'example.com', '', 'other.io']
+    sections = ['_webhooks', '_indexing', '_watching', '_spawning', '_changing']
+    # one section (chosen) holds a handler with an arbitrary group and one without selector; the others hold 0/1 fixed ones
+    special = vc.nondet(len(sections), 'which section holds the handler with the arbitrary group')
+    g = GROUPS[vc.nondet(len(GROUPS), 'its group')]
+    needed = {'', 'apiextensions.k8s.io'}
+    registry = Opaque('registry')
+    for i, name in enumerate(sections):
+        hs = []
+        if i == special:
+            hs = [Opaque('h-noselector', selector=None), Opaque('h-special', selector=Opaque('sel', group=g))]
+            needed.add(g)
+        elif i % 2 == 0:
+            hs = [Opaque(f'h{i}', selector=Opaque(f'sel{i}', group=f'g{i}.io'))]
+            needed.add(f'g{i}.io')
+        sec = Opaque(name)
+        sec.get_all_handlers = (lambda hs: lambda: list(hs))(hs)
+        setattr(registry, name, sec)
+    scanned = Opaque('scanned-resources')
+    sc = dict(thrown=None, groups='unset')
+
+    async def scan_resources(*, groups=None, settings=None, logger=None):
+        vc.emit('scan', groups, settings)
+        sc['groups'] = groups
+        await suspend('scan_resources')
+        k = vc.nondet(1 + len(other), 'scan_resources: ok / raises')
+        if k > 0:
+            sc['thrown'] = mk(other[k - 1])
+            raise sc['thrown']
+        return scanned
+
+    def revise_resources(**kw):
+        vc.emit('revise', kw, revised.held)
+    vc.used('scanning.scan_resources', 'trusted'); vc.used('observation.revise_resources', 'O7')
+    vc.used('queueing.watcher', 'Q5'); vc.used('Backbone.fill/wait_for', 'O11')
+    ld = vc.load('kopf._core.reactor.observation', 'resource_observer', stubs={
+        'scanning.scan_resources': scan_resources, 'revise_resources': revise_resources, 'queueing.watcher': watcher,
+        'asyncio': _AsyncioStub(vc), 'logger': NullLogger()})
+    outcome, raised = 'returned', None
+    try:
+        vc.drive(ld.fn(settings=settings, registry=registry, insights=insights))
+    except _Idle:
+        outcome = 'idle'
+    except BaseException as e:
+        if _ours(e):
+            raise
+        outcome, raised = 'raised', e
+    tr, names = vc.trace, _names(vc)
+    scans = [ev for ev in tr if ev[0] == 'scan']
+    revs = [ev for ev in tr if ev[0] == 'revise']
+    fills = [ev for ev in tr if ev[0] == 'backbone.fill']
+    watches = [ev for ev in tr if ev[0] == 'watcher']
+    vc.canary('canary.always_full_scan', sc['groups'] is None)
+    vc.canary('canary.never_idles', outcome != 'idle')
+    vc.canary('canary.never_fails', outcome != 'raised')
+    vc.ensure('never_returns', outcome != 'returned')
+    vc.ensure('scans_the_groups_of_all_selectors', len(scans) == 1 and scans[0][2] is settings)
+    got = sc['groups']
+    if None in needed:
+        vc.ensure('scans_the_groups_of_all_selectors', got is None)
+    else:
+        vc.ensure('scans_the_groups_of_all_selectors', got is None or needed <= set(got))
+    if sc['thrown'] is not None:
+        vc.ensure('other_failures_propagate', raised is sc['thrown'] and not revs and not fills and 'ready.set' not in names
+                  and not watches)
+        return ('scan-failed', type(sc['thrown']).__name__)
+    vc.ensure('population.revised_with_the_scan', len(revs) == 1 and revs[0][1].get('resources') is scanned
+              and revs[0][1].get('group', 'missing') is None and revs[0][1].get('insights') is insights
+              and revs[0][1].get('registry') is registry)
+    vc.ensure('population.backbone_filled', len(fills) == 1 and fills[0][1] is scanned)
+    vc.ensure('population.committed_under_lock_then_notified', committed_under_lock(vc, ('revise', 'backbone.fill')))
+    vc.ensure('ready_after_population', _order_ok(names, 'revised.release', 'ready.set')
+              and [ev[1] for ev in tr if ev[0] == 'ready.set'] == ['resources']
+              and all(names.index('ready.set') < i for i, n in enumerate(names) if n in ('watcher', 'idle-forever')))
+    wf = [ev for ev in tr if ev[0] == 'backbone.wait_for']
+    vc.ensure('uses_the_backbone_resource', len(wf) == 1 and wf[0][1] is references.CRDS)
+    vc.ensure('watches_when_enabled', Implies(Not(disabled), len(watches) == 1))
+    vc.ensure('disabled_idles', Implies(disabled, not watches and outcome == 'idle'))
+    for ev in watches:
+        kw = ev[1]
+        p = kw.get('processor')
+        vc.ensure('watches_when_enabled', kw.get('resource') is st['resource'] and kw.get('namespace') is None
+                  and kw.get('settings') is settings and kw.get('operator_paused') is None
+                  and getattr(p, 'func', None) is ld.ns['process_discovered_resource_event']
+                  and set(getattr(p, 'keywords', {})) == {'settings', 'registry', 'insights'}
+                  and p.keywords['settings'] is settings and p.keywords['registry'] is registry and p.keywords['insights'] is insights)
+    thrown = st['thrown']
+    if thrown is None:
+        return ('disabled', outcome)
+    if isinstance(thrown, errors.APIForbiddenError):
+        vc.ensure('watch_403_idles', outcome == 'idle')
+    else:
+        vc.ensure('other_failures_propagate', raised is thrown)
+    return ('watched', type(thrown).__name__, outcome)
+
+
+# ================================================================================================ O10
+def _glob(name, pat):
+    """independent glob matcher: `*` any run of characters, `?` exactly one, everything else literally"""
+    if not pat:
+        return not name
+    if pat[0] == '*':
+        return any(_glob(name[i:], pat[1:]) for i in range(len(name) + 1))
+    return bool(name) and (pat[0] == '?' or pat[0] == name[0]) and _glob(name[1:], pat[1:])
+
+
+def _ref_match_namespace(name, pattern):
+    """docs/scopes.rst: comma-separated globs, `!` negates; the first glob is decisive (an implied `*` if it is a
+    negation); among the following ones the RIGHTMOST matching glob wins."""
+    if isinstance(pattern, re.Pattern):
+        return pattern.fullmatch(name) is not None
+    parts = [p.strip() for p in pattern.split(',')]
+    if parts[0].startswith('!'):
+        parts.insert(0, '*')
+    if not _glob(name, parts[0]):
+        return False
+    for p in reversed(parts[1:]):
+        neg = p.startswith('!')
+        if _glob(name, p.lstrip('!')):
+            return not neg
+    return True
+
+
+@bounded('O10', targets=['kopf._cogs.structs.references.match_namespace', 'kopf._cogs.structs.references.select_specific_namespaces'],
+         props=['C19'], clauses=['matches_reference', 'docstring_examples', 'regex_fullmatch', 'specific_names_only'],
+         universe='names {myapp-live, myapp-test, myapp-pr-123, myapp-pr-456, otherapp-live, otherapp-pr-123, a, ab, default, '
+                  'kube-system, ""} x every pattern of 1..3 globs from 13 atoms (literal, *, ?, prefix-*, *-infix-*, *suffix), each '
+                  'plain or negated, joined by "," / ", " / " , " (exhaustive for 1-2 globs, every 3-glob pattern in the thorough tier, '
+                  'a seeded sample of 6000 in the quick tier); + pre-compiled regexps; + the examples of the docstring and docs/scopes.rst')
+def O10(b):
+    """
+    BOUNDED stand-in for the glob semantics (fnmatch is a library; names are symbolic strings: out of reach for the
+    VCs -- the combination logic alone is proved in O10c): references.match_namespace agrees with an independent
+    implementation of the documented pattern language (own glob matcher, "rightmost matching glob wins, first glob
+    decisive, implied * before a leading negation, blanks around commas ignored"); regexps use fullmatch;
+    select_specific_namespaces returns exactly the string patterns without any of `,*?!` (docs/scopes.rst).
+    """
+    names = ['myapp-live', 'myapp-test', 'myapp-pr-123', 'myapp-pr-456', 'otherapp-live', 'otherapp-pr-123', 'a', 'ab',
+             'default', 'kube-system', '']
+    atoms = ['*', 'myapp-*', '*-pr-*', '*-pr-123', '*pr-123', 'a', 'a?', '?', 'default', 'otherapp-*', 'kube-*', '??', 'myapp-pr-456']
+    globs = atoms + ['!' + a for a in atoms]
+    match = references.match_namespace
+
+    def run(pattern):
+        for name in names:
+            want = _ref_match_namespace(name, pattern)
+            try:
+                got = match(name, pattern)
+            except Exception as e:
+                got = e
+            b.case(key=(name, pattern), nontrivial=want)
+            b.check('matches_reference', got is want or (got == want and isinstance(got, bool)),
+                    lambda: dict(name=name, pattern=pattern, got=repr(got), want=want))
+    for g in globs:
+        run(g)
+    for g1 in globs:
+        for g2 in globs:
+            for sep in (',', ', ', ' , '):
+                run(g1 + sep + g2)
+    triples = [(g1, g2, g3) for g1 in globs for g2 in globs for g3 in globs]
+    if not b.thorough:
+        triples = b.rng.sample(triples, 6000)
+        b.sampled('3-glob patterns: 6000 seeded samples of 17576 in the quick tier')
+    for g1, g2, g3 in triples:
+        run(f'{g1},{g2}, {g3}')
+    examples = [('myapp-*, !*-pr-*, *pr-123', {'myapp-test': True, 'myapp-live': True, 'myapp-pr-123': True, 'myapp-pr-456': False,
+                                                'otherapp-pr-123': False}),
+                ('!*-pr-*, *pr-123', {'myapp-test': True, 'myapp-live': True, 'myapp-pr-123': True, 'anyapp-anything': True,
+                                      'otherapp-pr-123': True, 'myapp-pr-456': False}),
+                ('myapp-*,!*-pr-*,*-pr-123', {'myapp-live': True, 'myapp-pr-456': False, 'myapp-pr-123': True, 'otherapp-live': False,
+                                              'otherapp-pr-123': False}),
+                ('some-namespace', {'some-namespace': True, 'some-namespace2': False, 'another-namespace': False}),
+                ('*-pr-123-*', {'x-pr-123-y': True, 'x-pr-124-y': False}), ('!*-pr-123-*', {'x-pr-123-y': False, 'x-pr-124-y': True})]
+    for pattern, table in examples:
+        for name, want in table.items():
+            b.case(key=('ex', name, pattern))
+            b.check('docstring_examples', match(name, pattern) is want, dict(name=name, pattern=pattern, want=want))
+    for rx, table in [(re.compile(r'ns\d+'), {'ns1': True, 'ns12': True, 'ns1x': False, 'xns1': False, 'ns': False}),
+                      (re.compile(r'a|ab'), {'a': True, 'ab': True, 'abc': False})]:
+        for name, want in table.items():
+            b.case(key=('rx', name, rx.pattern))
+            b.check('regex_fullmatch', match(name, rx) is want, dict(name=name, regex=rx.pattern, want=want))
+    pool = ['ns1', 'default', 'kube-system', 'ns*', 'ns?', '!ns1', 'ns1,ns2', 'a, b', '*', '', re.compile('ns1'), re.compile('.*')]
+    for k in range(0, 4):
+        for combo in itertools.combinations(pool, k):
+            want = {p for p in combo if isinstance(p, str) and not any(c in p for c in ',*?!')}
+            try:
+                got = references.select_specific_namespaces(list(combo))
+            except Exception as e:
+                got = [e]
+            b.case(key=('sel', tuple(map(str, combo))))
+            b.check('specific_names_only', set(got) == want and all(isinstance(x, str) for x in got),
+                    lambda: dict(patterns=[str(p) for p in combo], got=sorted(map(str, got)), want=sorted(want)))
+
+
+@harness('O10c', targets='kopf._cogs.structs.references.match_namespace', props=['C19'],
+         clauses=['first_glob_decisive', 'rightmost_matching_glob_wins', 'implied_catch_all', 'blanks_ignored', 'regex_is_fullmatch'],
+         canaries=['canary.always_matches', 'canary.never_matches'],
+         trusted=['fnmatch.fnmatch(name, glob): a pure predicate (arbitrary here, except that `*` matches everything); glob semantics: O10',
+                  'str.split/strip/startswith/lstrip on the concrete pattern text'])
+def O10c(vc):
+    """
+    The combination logic of references.match_namespace, for an ARBITRARY glob predicate (fnmatch is a stub returning a
+    fresh boolean per glob, `*` matches all): patterns of 1..3 globs g0,g1,g2, each plain or negated, with or without
+    blanks around the commas.  Documented rule (docs/scopes.rst): the first glob is decisive -- no match of it, no match
+    at all; a leading negation implies a preceding `*`; among the later globs the rightmost one that matches wins
+    (inclusive: match, exclusive: no match); if none of them matches, the first glob's verdict stands.
+    A pre-compiled regexp is applied with fullmatch (and nothing else).
+    """
+    if vc.nondet(2, 'pattern: globs / regexp') == 1:
+        verdict = vc.bool('fullmatch')
+        calls = []
+
+        class Rx:
+            pass
+        rx = Rx()
+        rx.fullmatch = lambda name: (calls.append(('fullmatch', name)), Opaque('match', truth=verdict))[1]
+        rx.match = lambda name: (calls.append(('match', name)), Opaque('match', truth=vc.bool('match')))[1]
+        rx.search = lambda name: (calls.append(('search', name)), Opaque('match', truth=vc.bool('search')))[1]
+        ld = vc.load('kopf._cogs.structs.references', 'match_namespace', stubs={'re.Pattern': Rx})
+        got = ld.fn('some-ns', rx)
+        vc.ensure('regex_is_fullmatch', calls == [('fullmatch', 'some-ns')] and Iff(got, verdict) and isinstance(got, (bool, SBool)))
+        vc.canary('canary.always_matches', got)
+        vc.canary('canary.never_matches', Not(got))
+        return ('regex', got)
+    n = 1 + vc.nondet(3, 'number of globs')
+    negs = [vc.nondet(2, f'glob {i} negated?') == 1 for i in range(n)]
+    spaced = vc.nondet(2, 'blanks around the commas?') == 1
+    texts = [('!' if neg else '') + f'g{i}' for i, neg in enumerate(negs)]
+    pattern = (' , ' if spaced else ',').join(texts)
+    if spaced:
+        pattern = ' ' + pattern + ' '
+    m = {}
+
+    def fnmatch(name, glob):
+        vc.emit('fnmatch', name, glob)
+        if glob == '*':
+            return True
+        if glob not in m:
+            m[glob] = vc.bool(f'fnmatch(name,{glob!r})')
+        return m[glob]
+    ld = vc.load('kopf._cogs.structs.references', 'match_namespace', stubs={'fnmatch.fnmatch': fnmatch})
+    got = ld.fn('some-ns', pattern)
+    asked = {ev[2] for ev in vc.trace if ev[0] == 'fnmatch'}
+    vc.ensure('blanks_ignored', asked <= {'*'} | {f'g{i}' for i in range(n)} and all(ev[1] == 'some-ns' for ev in vc.trace))
+    mm = [m.get(f'g{i}', None) for i in range(n)]
+    mm = [vc.bool(f'unasked{i}') if x is None else x for i, x in enumerate(mm)]
+    globs = list(zip(negs, mm))
+    if negs[0]:
+        globs.insert(0, (False, True))
+    first = globs[0][1]
+    vc.ensure('first_glob_decisive', Implies(Not(first), Not(got)))
+    # rightmost matching later glob wins
+    verdict = True
+    for neg, hit in globs[1:]:
+        verdict = If(hit, not neg, verdict)
+    vc.ensure('rightmost_matching_glob_wins', Implies(first, Iff(got, verdict)))
+    if negs[0]:
+        vc.ensure('implied_catch_all', Implies(And(*[Not(h) for _, h in globs[1:]]), got))
+    else:
+        vc.ensure('implied_catch_all', True)
+    vc.canary('canary.always_matches', got)
+    vc.canary('canary.never_matches', Not(got))
+    return ('globs', pattern, got)
+
+
+# ================================================================================================ O11
+@bounded('O11', targets='kopf._cogs.structs.references.Resource.get_url', props=['C08', 'C19'],
+         clauses=['path_addresses_exactly_the_object', 'api_root', 'query_is_the_params', 'server_prefix', 'refusals'],
+         universe='(group, version) in {("", v1), (example.com, v1), (example.com, v1beta1), (apps, v1)} x namespaced {True, False} x '
+                  'namespace {None, ns1} x name {None, obj1} x subresource {None, status} x params {None, {}, 1 pair, 2 pairs with '
+                  'characters that need quoting} x server {None, https://h:6443, https://h:6443/}; exhaustive (768 calls)')
+def O11(b):
+    """
+    BOUNDED (urllib quoting and str.join are library code over strings): Resource.get_url composes the K8s API URL.
+    Checked by PARSING the result (urllib.parse.urlsplit/parse_qsl), not by re-building it: the path is
+    /api/v1 for core v1, /apis/<group>/<version> otherwise; then namespaces/<ns> iff the resource is namespaced and a
+    namespace is given; then the plural; then the name; then the subresource -- and nothing else: a request for an
+    object lands on exactly that object (C08), a list/watch request on exactly that resource in that namespace (C19).
+    The query is exactly the params; a server is prefixed without doubling the slash.  Refused with ValueError: a
+    subresource without a name; a named object of a namespaced resource without a namespace; a namespace for a
+    cluster-scoped resource (the docstring says "ignored": accepted too, as long as no namespace appears in the path).
+    """
+    import urllib.parse
+    for group, version in [('', 'v1'), ('example.com', 'v1'), ('example.com', 'v1beta1'), ('apps', 'v1')]:
+        for namespaced in (True, False):
+            r = references.Resource(group=group, version=version, plural='things', namespaced=namespaced)
+            for namespace, name, subresource in itertools.product((None, 'ns1'), (None, 'obj1'), (None, 'status')):
+                for params in (None, {}, {'watch': 'true'}, {'watch': 'true', 'resourceVersion': '12 3&x=/y'}):
+                    for server in (None, 'https://h:6443', 'https://h:6443/'):
+                        kw = dict(server=server, namespace=namespace, name=name, subresource=subresource, params=params)
+                        try:
+                            url = r.get_url(**kw)
+                            err = None
+                        except Exception as e:
+                            url, err = None, e
+                        w = lambda: dict(resource=repr(r), namespaced=namespaced, **{k: str(v) for k, v in kw.items()}, url=url, error=repr(err))
+                        b.case(key=(group, version, namespaced, namespace, name, subresource, str(params), server))
+                        must_refuse = (subresource is not None and name is None) or (namespaced and namespace is None and name is not None)
+                        may_refuse = not namespaced and namespace is not None
+                        if must_refuse:
+                            b.check('refusals', isinstance(err, ValueError), w)
+                            continue
+                        if may_refuse and err is not None:
+                            b.check('refusals', isinstance(err, ValueError), w)
+                            continue
+                        b.check('refusals', err is None and isinstance(url, str), w)
+                        if err is not None:
+                            continue
+                        rest = url
+                        if server is not None:
+                            b.check('server_prefix', url.startswith('https://h:6443/') and not url.startswith('https://h:6443//'), w)
+                            rest = url[len('https://h:6443'):]
+                        else:
+                            b.check('server_prefix', url.startswith('/'), w)
+                        parts = urllib.parse.urlsplit(rest)
+                        segs = parts.path.split('/')
+                        root = ['', 'api', 'v1'] if (group, version) == ('', 'v1') else ['', 'apis', group, version]
+                        b.check('api_root', segs[:len(root)] == root, w)
+                        want = list(root)
+                        if namespaced and namespace is not None:
+                            want += ['namespaces', namespace]
+                        want += ['things'] + ([name] if name is not None else []) + ([subresource] if subresource is not None else [])
+                        b.check('path_addresses_exactly_the_object', segs == want and not parts.fragment, w)
+                        b.check('query_is_the_params', urllib.parse.parse_qsl(parts.query, keep_blank_values=True) == list((params or {}).items())
+                                and ('?' in url) == bool(params), w)
+
+
+class _Cond(_Revised):
+    """asyncio.Condition incl. wait_for(pred): returns at once if pred() holds; otherwise the lock is released, other
+    tasks run (`others()`), and it returns -- with the lock re-acquired -- only at a moment when pred() holds."""
+    def __init__(self, vc, name='cond', others=lambda: None):
+        super().__init__(vc, name)
+        self.others = others
+
+    async def wait_for(self, pred):
+        self.vc.emit(f'{self.name}.wait_for', self.held)
+        if pred():
+            return True
+        self.held = False
+        await suspend(f'{self.name}.wait_for')
+        self.others()
+        self.held = True
+        if not pred():
+            raise Unsupported('rely broken: Condition.wait_for() returned although its predicate does not hold')
+        return True
+
+
+@harness('O11b', targets=['kopf._cogs.structs.references.Backbone.fill', 'kopf._cogs.structs.references.Backbone.wait_for'],
+         props=['C19'],
+         clauses=['fill.first_found_wins', 'fill.every_match_found', 'fill.never_replaced', 'fill.notified_under_lock',
+                  'wait.returns_the_found_resource', 'wait.blocks_until_found'],
+         canaries=['canary.always_filled', 'canary.never_blocks'],
+         trusted=['Selector.check(resource) by contract O7 (select_matches_reference): a pure predicate',
+                  'asyncio.Condition (lock, notify_all, wait_for); dict'])
+def O11b(vc):
+    """
+    references.Backbone (the framework's own resources -- namespaces, CRDs, peerings -- that the observers and the
+    orchestrator wait for).  fill(resources): every backbone selector that has no resource yet gets the FIRST of the
+    given resources (in the given order) that it matches, selectors already resolved are never changed ("the backbone
+    resources cannot be changed at runtime after they are found for the first time"), selectors nothing matches stay
+    unresolved; waiters are notified under the lock.  wait_for(selector): returns the resource of that selector, and
+    only once there is one (it waits under the condition otherwise).   Domain: 2 selectors (each resolved or not
+    before) x 0-2 resources with arbitrary check() results; real Backbone object, real loops over concrete lists.
+    """
+    scenario = vc.nondet(2, 'scenario: fill / wait_for')
+    bb = references.Backbone()
+    s0, s1 = Opaque('selector0'), Opaque('selector1')
+    old0, old1 = Opaque('old-resource0'), Opaque('old-resource1')
+    if scenario == 0:
+        cond = _Revised(vc, 'cond')
+        bb._revised = cond
+        bb.selectors = [s0, s1]
+        pre = {}
+        if vc.nondet(2, 'selector0 resolved before?') == 1:
+            pre[s0] = old0
+        if vc.nondet(2, 'selector1 resolved before?') == 1:
+            pre[s1] = old1
+        bb._items = dict(pre)
+        resources = [Opaque(f'resource{i}') for i in range(vc.nondet(3, 'number of resources'))]
+        chk = {}
+        for s in (s0, s1):
+            s.check = (lambda s: lambda r: chk.setdefault((s, r), vc.bool(f'{s!r}.check({r!r})')))(s)
+        ld = vc.load('kopf._cogs.structs.references', 'Backbone.fill')
+        vc.drive(ld.fn(bb, resources=resources))
+        for s in (s0, s1):
+            now = bb._items.get(s)
+            if s in pre:
+                vc.ensure('fill.never_replaced', now is pre[s])
+                continue
+            hits = [chk.get((s, r), None) for r in resources]
+            hits = [vc.bool('unasked') if h is None else h for h in hits]
+            none_before = True
+            for r, h in zip(resources, hits):
+                vc.ensure('fill.first_found_wins', Implies(And(none_before, h), now is r))
+                none_before = And(none_before, Not(h))
+            vc.ensure('fill.every_match_found', Iff(now is None, none_before))
+            if not resources:
+                vc.ensure('fill.first_found_wins', now is None)
+            vc.canary('canary.always_filled', now is not None)
+        vc.ensure('fill.never_replaced', set(bb._items) <= {s0, s1})
+        names = _names(vc)
+        vc.ensure('fill.notified_under_lock', names == ['cond.acquire', 'cond.notify_all', 'cond.release']
+                  and all(ev[1] is True for ev in vc.trace if ev[0] == 'cond.notify_all'))
+        return ('fill', len(resources), len(pre))
+    found = Opaque('found-resource')
+    state = dict(filled_by_others=False)
+
+    def others():
+        # Backbone.fill in another task (scenario fill) resolves the selector: only then may wait_for() return
+        bb._items[s0] = found
+        state['filled_by_others'] = True
+    blocked = []
+    cond = _Cond(vc, 'cond', others=others)
+    bb._revised = cond
+    there = vc.nondet(2, 'selector resolved at the call?') == 1
+    bb._items = {s1: old1}
+    if there:
+        bb._items[s0] = found
+    ld = vc.load('kopf._cogs.structs.references', 'Backbone.wait_for')
+    try:
+        got = vc.drive(ld.fn(bb, s0), on_suspend=lambda site: blocked.append(site) if site == 'cond.wait_for' else None)
+    except Exception as e:
+        if _ours(e):
+            raise
+        got = e
+    vc.ensure('wait.returns_the_found_resource', got is found and bb._items.get(s0) is found)
+    vc.ensure('wait.blocks_until_found', bool(blocked) == (not there) and not cond.held
+              and all(ev[1] is True for ev in vc.trace if ev[0] == 'cond.wait_for'))
+    vc.canary('canary.never_blocks', not blocked)
+    return ('wait_for', there, bool(blocked))
+
+
+# ================================================================================================ N5
+class _Response:
+    """aiohttp.ClientResponse by contract, as far as api.get/../stream use it: an async context manager that releases
+    the connection on exit, json() (parsed body or raises), close(), content."""
+    def __init__(self, vc, json_outcomes=('value',)):
+        self.vc, self.closed, self.content = vc, False, Opaque('response.content')
+        self.parsed, self.json_exc, self.json_outcomes = None, None, json_outcomes
+
+    async def __aenter__(self):
+        self.vc.emit('response.aenter', self)
+        return self
+
+    async def __aexit__(self, et, e, tb):
+        self.vc.emit('response.aexit', self, e)
+        self.closed = True
+        return False
+
+    def close(self):
+        self.vc.emit('response.close', self)
+        self.closed = True
+
+    async def json(self):
+        self.vc.emit('response.json', self)
+        await suspend('response.json')
+        k = self.json_outcomes[self.vc.nondet(len(self.json_outcomes), 'response.json(): outcome')]
+        if k == 'value':
+            self.parsed = Opaque('parsed-json')
+            return self.parsed
+        self.json_exc = k('x') if k is not aiohttp.ContentTypeError else aiohttp.ClientPayloadError('not json')
+        raise self.json_exc
+
+
+@harness('N5', targets=['kopf._cogs.clients.api.get', 'kopf._cogs.clients.api.post', 'kopf._cogs.clients.api.patch',
+                        'kopf._cogs.clients.api.delete'], props=['C12', 'C08'],
+         clauses=['goes_through_request', 'arguments_passed_through', 'returns_the_parsed_body', 'response_released',
+                  'failures_propagate'],
+         canaries=['canary.never_fails', 'canary.always_fails'],
+         trusted=['api.request by contract N2 (retries/backoff/escalation) + N3 (authentication)',
+                  'aiohttp.ClientResponse: async with releases it; json() parses the body or raises'])
+def N5(vc):
+    """
+    api.get / post / patch / delete: each is exactly ONE call of api.request (so it inherits the retry/backoff/
+    re-authentication policy of N2/N3 -- no request bypasses it) with its own HTTP method and the caller's url, payload,
+    headers, timeout, settings and logger unchanged (C08: the patch payload that was computed is the one sent, to the
+    URL that was computed); the result is the parsed JSON body; the response is released on every exit (also when
+    parsing fails); failures of the request or of the parsing propagate unchanged, nothing is retried here.
+    """
+    verb = ['get', 'post', 'patch', 'delete'][vc.nondet(4, 'wrapper')]
+    a = dict(url=Opaque('url'), settings=Opaque('settings'), logger=Opaque('logger'))
+    # Optional arguments: given (incl. the empty-but-not-None payload/headers) or left to their defaults
+    shape = vc.nondet(3, 'optional arguments: omitted / given / given-but-empty')
+    if shape == 1:
+        a.update(payload=Opaque('payload'), headers={'Content-Type': 'application/merge-patch+json'}, timeout=Opaque('timeout'))
+    elif shape == 2:
+        a.update(payload={}, headers={}, timeout=None)
+    st = dict(resp=None, req_exc=None)
+    reps = [errors.APIError, errors.APINotFoundError, aiohttp.ClientConnectionError, asyncio.CancelledError]
+
+    async def request(*args, **kw):
+        vc.emit('request', args, kw)
+        await suspend('request')
+        k = vc.nondet(1 + len(reps), 'request: response / raises')
+        if k > 0:
+            cls = reps[k - 1]
+            st['req_exc'] = cls(None, status=404, headers={}) if issubclass(cls, errors.APIError) else cls('x')
+            raise st['req_exc']
+        st['resp'] = _Response(vc, json_outcomes=('value', aiohttp.ContentTypeError, asyncio.CancelledError))
+        return st['resp']
+    vc.used('api.request', 'N2+N3')
+    ld = vc.load('kopf._cogs.clients.api', verb, stubs={'request': request})
+    result = raised = None
+    try:
+        result = vc.drive(ld.fn(**a))
+    except BaseException as e:
+        if _ours(e):
+            raise
+        raised = e
+    reqs = [ev for ev in vc.trace if ev[0] == 'request']
+    vc.ensure('goes_through_request', len(reqs) == 1)
+    args, kw = reqs[0][1], reqs[0][2]
+    names = ['method', 'url']
+    got = dict(zip(names, args), **kw)
+    vc.ensure('arguments_passed_through', len(args) <= 2 and got.get('method') == verb and got.get('url') is a['url']
+              and got.get('settings') is a['settings'] and got.get('logger') is a['logger']
+              and got.get('payload') is a.get('payload') and got.get('headers') is a.get('headers')
+              and got.get('timeout') is a.get('timeout') and 'context' not in got
+              and set(got) <= {'method', 'url', 'settings', 'logger', 'payload', 'headers', 'timeout'})
+    vc.canary('canary.never_fails', raised is None)
+    vc.canary('canary.always_fails', raised is not None)
+    resp = st['resp']
+    if resp is None:
+        vc.ensure('failures_propagate', raised is st['req_exc'] and result is None)
+        return (verb, 'request-failed', type(raised).__name__)
+    names_ = _names(vc)
+    vc.ensure('response_released', names_.count('response.aexit') == 1 and names_.index('response.json') < names_.index('response.aexit'))
+    if resp.json_exc is not None:
+        vc.ensure('failures_propagate', raised is resp.json_exc)
+        return (verb, 'parse-failed', type(raised).__name__)
+    vc.ensure('returns_the_parsed_body', raised is None and result is resp.parsed and names_.count('response.json') == 1)
+    return (verb, 'ok')
+
+
+# ================================================================================================ N6
+def _collect(agen):
+    """run an async generator that never really suspends (its source is a plain async generator) without an event loop"""
+    out = []
+    while True:
+        try:
+            agen.__anext__().send(None)
+        except StopIteration as e:
+            out.append(e.value)
+        except StopAsyncIteration:
+            return out
+        else:
+            raise RuntimeError('the generator suspended')
+
+
+@bounded('N6', targets='kopf._cogs.clients.api.iter_jsonlines', props=['C19'],
+         clauses=['yields_the_nonempty_lines_in_order', 'chunk_size_passed', 'no_crash'],
+         universe='every byte text over {a, b, LF} up to length 7 (3280 texts) x every way to cut it into non-empty chunks '
+                  '(2^(n-1)) plus variants with empty chunks interleaved; + 300 seeded random texts of length 8..40 over '
+                  '{a, {, }, ", LF} with 20 random chunkings each; exhaustive for the first part')
+def N6(b):
+    """
+    BOUNDED (bytes.find/slicing over a buffer: library code on byte strings, no symbolic model): api.iter_jsonlines
+    yields exactly the non-empty lines of the concatenated chunks, in order, without the line feeds: a line split across
+    chunks is re-joined, several lines in one chunk are all yielded, the unterminated tail is yielded at the end of
+    the stream, empty lines (and empty chunks) yield nothing -- whatever the chunk boundaries are (C19: every object
+    change of the watch stream reaches processing; nothing is dropped or duplicated at a chunk boundary).
+    """
+    from kopf._cogs.clients import api
+
+    class Content:
+        def __init__(self, chunks):
+            self.chunks, self.sizes = chunks, []
+
+        def iter_chunked(self, n):
+            self.sizes.append(n)
+
+            async def gen():
+                for c in self.chunks:
+                    yield c
+            return gen()
+
+    def chunkings(text):
+        n = len(text)
+        if n == 0:
+            yield []
+            yield [b'']
+            return
+        for mask in range(1 << (n - 1)):
+            out, start = [], 0
+            for i in range(1, n):
+                if mask >> (i - 1) & 1:
+                    out.append(text[start:i]); start = i
+            out.append(text[start:])
+            yield out
+            if mask % 5 == 0:
+                yield [x for c in out for x in (b'', c)] + [b'']
+
+    def one(text, chunks, key):
+        content = Content(chunks)
+        want = [l for l in text.split(b'\n') if l]
+        try:
+            got = _collect(api.iter_jsonlines(content, 12345))
+            err = None
+        except Exception as e:
+            got, err = None, e
+        b.case(key=key, nontrivial=bool(want))
+        w = lambda: dict(text=repr(text), chunks=[repr(c) for c in chunks], got=repr(got), want=repr(want), error=repr(err))
+        b.check('no_crash', err is None, w)
+        if err is None:
+            b.check('yields_the_nonempty_lines_in_order', got == want and all(isinstance(x, bytes) for x in got), w)
+            b.check('chunk_size_passed', content.sizes == [12345], w)
+    maxlen = 7
+    for n in range(maxlen + 1):
+        for letters in itertools.product(b'ab\n', repeat=n):
+            text = bytes(letters)
+            for i, chunks in enumerate(chunkings(text)):
+                one(text, chunks, (text, i))
+    for k in range(300):
+        n = b.rng.randint(8, 40)
+        text = bytes(b.rng.choice(b'a{}"\n\n') for _ in range(n))
+        for j in range(20):
+            cuts = sorted(b.rng.sample(range(1, n), b.rng.randint(0, min(6, n - 1))))
+            chunks = [text[i:j2] for i, j2 in zip([0] + cuts, cuts + [n])]
+            one(text, chunks, ('rnd', k, j))
+    b.sampled('long texts: 300 seeded random texts x 20 random chunkings (short texts are exhaustive)')
